@@ -11,6 +11,20 @@ Theorem C02_lower_bound : forall l th,
 Proof. exact lower_bound_const. Qed.
 Print Assumptions C02_lower_bound.
 
+(* no starvation in the model: on the ideal clock the batch goes out exactly at first + throttle, whatever rejected or erroring
+   events keep arriving (the real clock adds the latency measured by the harness) *)
+Theorem C02_upper_bound : forall l th,
+  (forall x, In x l -> snd (fst x) = th) ->
+  forall b, In b (collect l th) -> b_urgent b = false -> b_deliver b <= b_first b + th.
+Proof. exact upper_bound_const. Qed.
+Print Assumptions C02_upper_bound.
+
+Theorem C02_delivery_time_exact : forall l th,
+  (forall x, In x l -> snd (fst x) = th) -> mono 0 l ->
+  forall b, In b (collect l th) -> b_urgent b = false -> b_deliver b = b_first b + th.
+Proof. exact delivery_time_exact. Qed.
+Print Assumptions C02_delivery_time_exact.
+
 (* ---- the throttle changed at run time (Worker/ThrottleRt.v: inputs are events and configuration changes; a loop turn reads
    the value configured then, the time-out in progress was computed from the value read at the previous turn) *)
 Theorem C02_runtime_machine_is_the_same_when_constant : forall th (l : list (N * ev)),
